@@ -338,8 +338,21 @@ def run(prog, tier):
     for s_ in col_stores:
         bi = pmatch(s_.targets[0], "_a[:, _i]")
         vt = rcs.term(s_.value, s_)
+        if isinstance(vt, ast.Call):
+            vt = rcs.norm_call(vt)
         ok_ = any(pmatch(vt, pt_, {"_i": bi["_i"]}) is not None for pt_ in ("piecewise_linear_sample(_x[:, _i], _p[:, _i], _n)",
                                                                              "piecewise_linear_sample(_x[:, _i], _p[:, _i], _n, **_)"))
+        if not ok_:
+            # the same columns walked as rows of the transposes: for i, (axis, density) in enumerate(zip(X.T, P.T))
+            for lp_ in ast.walk(csf):
+                if isinstance(lp_, ast.For) and any(x is s_ for x in ast.walk(lp_)) and pmatch(lp_.iter, "enumerate(zip(_x.T, _p.T))") is not None \
+                        and isinstance(lp_.target, ast.Tuple) and len(lp_.target.elts) == 2 and isinstance(lp_.target.elts[1], ast.Tuple) \
+                        and len(lp_.target.elts[1].elts) == 2 and U(lp_.target.elts[0]) == bi["_i"]:
+                    a_, d_ = [U(x) for x in lp_.target.elts[1].elts]
+                    sv_ = rcs.norm_call(s_.value) if isinstance(s_.value, ast.Call) else s_.value
+                    if pmatch(sv_, f"piecewise_linear_sample({a_}, {d_}, _n)") is not None or \
+                            pmatch(sv_, f"piecewise_linear_sample({a_}, {d_}, _n, **_)") is not None:
+                        ok_ = True
         if not ok_:
             whyc.append(f"line {s_.lineno}: column {bi['_i']} is `{U(vt)[:140]}`")
     obs.append(struct_ob("sampling-form", fqual(mi, csf) + "[columns]", bool(col_stores) and not whyc,
